@@ -1,4 +1,5 @@
 import CM.Proofs.Recognize1
+import CM.Proofs.Recognize2
 /-
 C15 — line recognizers equal the CommonMark 0.30 definitions, for lines of every length.
 Property theorems only; the proofs (closed forms of the Go loops with generalised accumulators) are in
@@ -26,6 +27,37 @@ theorem listMarker_eq_spec (line : Bytes) :
       | some m => (⟨m.delim, m.n, (m.stop : Int)⟩ : Model.ListMarker) | none => Model.noMarker) :=
   Proofs.listMarker_eq_spec line
 
+/-- §4.5 code fences: same fence character, length and info-string range, for every byte list. -/
+theorem fence_eq_spec (line : Bytes) :
+    Model.parseCodeFence line = (match Spec.codeFence line with
+      | some ⟨c, n, some (s, e)⟩ => (⟨c, n, (s : Int), (e : Int)⟩ : Model.CodeFence)
+      | some ⟨c, n, none⟩ => ⟨c, n, -1, -1⟩
+      | none => Model.noFence) :=
+  Proofs.fence_eq_spec line
+
+/-- §4.2 ATX headings, full statement (for lines: at most one trailing line ending). It is FALSE of the code:
+    `parseATXHeading` keeps a trailing space/tab preceded by an odd number of backslashes (known finding
+    KF-C15-atx-escaped-space; the repository's own TestParseATXHeading pins that behaviour). -/
+def atx_eq_spec_target : Prop := Proofs.atx_eq_spec_target
+
+theorem atx_eq_spec_target_false : ¬ atx_eq_spec_target := Proofs.atx_eq_spec_target_false
+
+/-- §4.2 ATX headings: same level and content range on every line whose two trimmed blank runs (the one ending the
+    line body, the one before a closing `#` sequence) are not preceded by an odd-length run of backslashes. -/
+theorem atx_eq_spec_partial (line : Bytes) (h : Proofs.isLine line = true)
+    (hesc : Proofs.noEscapedTrailingBlank line = true) :
+    Model.parseATXHeading line = (match Spec.atxHeading line with
+      | some h => (⟨h.level, h.start, h.stop⟩ : Model.ATXHeading) | none => ⟨0, 0, 0⟩) :=
+  Proofs.atx_eq_spec_partial line h hesc
+
+/-- … and that hypothesis is exactly the class of the known finding: on a line the spec reads as a heading, code
+    and spec agree iff it holds. -/
+theorem atx_eq_spec_iff (line : Bytes) (h : Proofs.isLine line = true) :
+    Model.parseATXHeading line = (match Spec.atxHeading line with
+      | some h => (⟨h.level, h.start, h.stop⟩ : Model.ATXHeading) | none => ⟨0, 0, 0⟩) ↔
+    (Spec.atxHeading line = none ∨ Proofs.noEscapedTrailingBlank line = true) :=
+  Proofs.atx_eq_spec_iff line h
+
 -- Non-vacuity: both sides take non-trivial values.
 private def b (s : String) : Bytes := s.toUTF8.toList
 example : Model.parseThematicBreak (b "- - -\r\n") = 5 := by decide +kernel
@@ -33,5 +65,10 @@ example : Spec.thematicBreak (b "- - -\r\n") = some 5 := by decide +kernel
 example : Model.parseListMarker (b "123456789. x") = ⟨0x2E, 123456789, 10⟩ := by decide +kernel
 example : Model.parseListMarker (b "1234567890. x") = Model.noMarker := by decide +kernel
 example : Model.parseSetextHeadingUnderline (b "===  \n") = 1 := by decide +kernel
+
+example : Proofs.isLine (b "## foo \\\\ ## \r\n") = true ∧ Proofs.noEscapedTrailingBlank (b "## foo \\\\ ## \r\n") = true := by decide +kernel
+example : Model.parseATXHeading (b "## foo \\\\ ## \r\n") = ⟨2, 3, 9⟩ := by decide +kernel
+example : Model.parseATXHeading (b "# foo\\ ") = ⟨1, 2, 7⟩ ∧ Spec.atxHeading (b "# foo\\ ") = some ⟨1, 2, 6⟩ := by decide +kernel
+example : Model.parseCodeFence (b "~~~~ go lang \n") = ⟨0x7E, 4, 5, 12⟩ := by decide +kernel
 
 end CM.Props.C15
